@@ -106,6 +106,14 @@ class C01(Prop):
         out.append({'steps': [{'src': "/(/ = 'x'\nabc", 'reset': True, 'callback': True}]})
         out.append({'steps': [{'src': "/x*/ = 'y'\nabc", 'reset': True, 'callback': True}]})
         out.append({'steps': [{'src': "= = 'a|b'\n=x= {m|", 'reset': True, 'callback': True}]})
+        # fixed defects F24-F26 (known_findings.json): list inside a container attached after a blank line; a parameter
+        # number longer than int() accepts; reserved characters in the htmlReplacement option
+        out.append({'steps': [{'src': "- a\n\n.+container\n> - b\n", 'reset': True, 'callback': True}]})
+        out.append({'steps': [{'src': "- a\n\n.+container\n  x\n\n  . b\n\n- c", 'reset': True, 'callback': True}]})
+        out.append({'steps': [{'src': "{m} = '$" + '1' * 5000 + "'\n{m|a}", 'reset': True, 'callback': True}]})
+        for hr in ['\x00', 'a\x01b', '\x02']:
+            out.append({'steps': [{'src': "{m} = '$$1'\n{m|<b>} <i>", 'safeMode': 10, 'htmlReplacement': hr, 'reset': True,
+                                   'callback': True}]})
         return out
 
     def cases(self, ctx):
@@ -157,7 +165,8 @@ class C03(Prop):
         out = []
         for src in ['[x](http://a"onmouseover="alert(1))', '<image:x"onerror="y|z>', '![a"b="c](u)', '<http://a"b=c>',
                     '."a"b="c"\npara', "{m} = '<script>x</script>'\n\n<div>{m}</div>", '.cls\n<div>\n\npara',
-                    '<image:x"y>', '<image:x"y|z>\n', '<<#a>>', 'a <b>b</b> &amp; &bogus; &#1; <!-- c -->',
+                    '<image:x"y>', '<image:x"y|z>\n', '."a onerror=alert(1) b"\n<image:http://h/p?style=|cap>',
+                    '.k\n<image:http://h/p?class=|cap>', '.#i\n<image:http://h/p?id=|cap>', '<<#a>>', 'a <b>b</b> &amp; &bogus; &#1; <!-- c -->',
                     '.#id "a:b"\n- item\n\n.x\nt:: d', '# H\n## H', "{--header-ids} = 'x'\n# A b\n# A b"]:
             for mode in [1, 2, 3, 11, 15]:
                 out.append({'steps': [{'src': src, 'safeMode': mode, 'callback': True}]})
